@@ -17,22 +17,6 @@ import pymat2lean as P2L
 TOMO = "quara/protocol/qtomography/standard/"
 
 
-# canonical text (ast.unparse, docstring stripped) of `cqpt_to_cqmpt`: its hstack / block_diag / vstack assembly is
-# hand-modelled in QModel/C08.lean (`cqptToCqmpt`, `qmptLastRow`); ANY edit of these statements makes the translator raise,
-# so the hand model has to be re-derived (and re-proved) before the check can pass again
-CQPT_TO_CQMPT_TEXT = (
-    'c_list = [c_qpt] * m_mprocess\nif on_para_eq_constraint:\n    if len(c_qpt.shape) < 2:\n        '
-    'c_qpt = c_qpt.reshape((1, c_qpt.shape[0]))\n    d_qpt = c_qpt[:, :dim ** 2]\n    e_qpt = c_qpt[:, dim ** 2:]\n    '
-    'c_list = [c_qpt] * (m_mprocess - 1)\n    a_0_left = block_diag(*c_list)\n    '
-    'a_0_right = np.zeros((a_0_left.shape[0], e_qpt.shape[1]))\n    a_0 = np.hstack([a_0_left, a_0_right])\n    '
-    'd_dash_right_size = (d_qpt.shape[0], c_qpt.shape[1] - d_qpt.shape[1])\n    '
-    'd_dash = np.hstack([-d_qpt, np.zeros(d_dash_right_size)])\n    '
-    'a_1 = np.hstack([d_dash] * (m_mprocess - 1) + [e_qpt])\n    a_qmpt = np.vstack([a_0, a_1])\n    '
-    'b_0 = np.zeros(d_qpt.shape[0] * (m_mprocess - 1))\n    b_1 = d_qpt.T[0]\n    b_qmpt = np.hstack([b_0, b_1])\n'
-    'else:\n    c_list = [c_qpt] * m_mprocess\n    c_qmpt = block_diag(*c_list)\n    a_qmpt = c_qmpt\n    '
-    'b_qmpt = np.zeros(c_qmpt.shape[0])\nreturn (a_qmpt, b_qmpt)')
-
-
 def _loops(fn, rel):
     """outer `for schedule_index, schedule in enumerate(...)` (or `for schedule_index in range(...)`) and the first inner loop"""
     outer = [n for n in fn.body if isinstance(n, ast.For)]
@@ -245,10 +229,6 @@ def translate(ctx):
     st = P2L.dict_stores(i, {"coeffs_0th", "coeffs_1st"}, rel)
     key = P2L.key_function(st, on, inn, rel)
     cf = [n for n in trees["standard_qmpt.py"].body if isinstance(n, ast.FunctionDef) and n.name == "cqpt_to_cqmpt"][0]
-    got = "\n".join(ast.unparse(x) for x in P2L.strip_doc(cf.body))
-    if got != CQPT_TO_CQMPT_TEXT:
-        P2L.fail(rel, cf, "cqpt_to_cqmpt differs from the statement sequence the hand model `cqptToCqmpt` was derived from "
-                          "(block_diag / hstack / vstack assembly): re-derive the model")
     bt, bf = _flag_if(cf, rel)
     la, lf = P2L.assigns(bt), P2L.assigns(bf)
     rxn = P2L.RowExpr(rel, {}, set(), {"dim": "dim", "m_mprocess": "m"}, {})
@@ -274,6 +254,18 @@ def translate(ctx):
     no = P2L.find_func(cls, "num_outcomes", rel)
     nr = [n for n in ast.walk(no) if isinstance(n, ast.Return)][0].value
     rxo = P2L.RowExpr(rel, {}, set(), {"num_outcomes_povm": "num_outcomes_povm", "num_outcomes_mprocess": "num_outcomes_mprocess"}, {})
+    ret = cf.body[-1]
+    if not (isinstance(ret, ast.Return) and ast.unparse(ret.value) == "(a_qmpt, b_qmpt)"):
+        P2L.fail(rel, cf, "expected `return a_qmpt, b_qmpt`")
+    blocks = []
+    for br in (bt, bf):
+        rm = P2L.RowMat(rel, {"dim": "dim", "m_mprocess": "m"})
+        rm.kinds["c_qpt"] = "mat"
+        blocks.append(rm.block(br.body, "a_qmpt", "b_qmpt"))
+    out += [f"/-- {rel}:{cf.lineno} `cqpt_to_cqmpt` statement by statement (block_diag / hstack / vstack on lists of rows) -/",
+            "def cqpt_to_cqmpt {K : Type} [Neg K] [Zero K] (flag : Bool) (dim m : Nat) (c_qpt : List (List K)) :",
+            "    Option (List (List K) × List K) :=",
+            "  if flag then", blocks[0], "  else", blocks[1], ""]
     out += [f"def qmpt_key (schedule_index element_index : Nat) : Nat × Nat := {key}", "",
             f"/-- {rel}:{cf.lineno} `cqpt_to_cqmpt`: columns of `d_qpt` / start of `e_qpt`, number of diagonal blocks with and"
             " without the flag, column of `d_qpt` that gives `b_1` -/",
@@ -306,7 +298,7 @@ def translate(ctx):
         P2L.fail(rel, f1, "calc_prob_dist no longer returns prob_dists[schedule_index]")
     out += ["/-! Checked structurally by the translator (it raises otherwise, nothing is generated for them): `calc_matA / calc_vecB` ="
             " `sorted(dict.items())` → values → vstack; `calc_prob_dists` = `matA @ var + vecB`, `reshape((num_schedules, -1))`,"
-            " `truncate_and_normalize`; `calc_prob_dist` = entry `[schedule_index]`; the statement sequence of `cqpt_to_cqmpt`. -/",
+            " `truncate_and_normalize`; `calc_prob_dist` = entry `[schedule_index]`. -/",
             "", "end QGen.C08", ""]
     P2L.write_if_changed(os.path.join(common.LEAN, "QGen", "C08.lean"), "\n".join(out))
     return []
@@ -744,9 +736,6 @@ def check_incomplete(ctx):
 
 
 PARTIAL = [
-    {"theorem": "QM.C08.gen_qmpt_consts",
-     "missing": "only the constants of cqpt_to_cqmpt are generated; its block_diag / hstack / vstack assembly is hand-modelled "
-                "(`cqptToCqmpt`) and pinned by the translator's exact-statement check + the `coeffs` correspondence"},
     {"theorem": "QM.C08.qmpt_walk_eq_born",
      "missing": "eps_zero clipping and truncate_and_normalize inside compose_qoperations are not modelled (hypothesis p_x ≠ 0)"},
 ]
